@@ -102,7 +102,7 @@ pub fn gen_limit(c: &mut Choices) -> LimitCase {
                 gc,
                 runtime_args: heap,
                 accept: stack,
-                partner: Some(body("200")),
+                partner: Some(body("20")),
                 partner_stdout: Some("start\ndone true\nend\n".into()),
                 arg_class: String::new(),
             }
@@ -110,7 +110,7 @@ pub fn gen_limit(c: &mut Choices) -> LimitCase {
         2 => {
             // retention beyond the heap
             let elem = *c.pick(&[("Int64", "0", 8usize), ("UInt8", "0u8", 1), ("(Int64, Int64, Int64)", "(0, 0, 0)", 24), ("Int32", "0i32", 4)]);
-            let chunk = *c.pick(&[16usize, 1000, 100_000, 1_000_000]);
+            let chunk = *c.pick(&[16usize, 1000, 50_000]);
             let shape = c.below(3);
             let prog = |rounds: &str| match shape {
                 0 => format!("fn main() {{\n    println(\"start\");\n    let keep = Vec[Array[{t}]]::new();\n    let mut i = 0;\n    while i < {rounds} {{\n        keep.push(Array[{t}]::fill({chunk}, {v}));\n        i = i + 1;\n    }}\n    println(\"kept ${{keep.size()}}\");\n}}\n", t = elem.0, v = elem.1),
@@ -118,7 +118,7 @@ pub fn gen_limit(c: &mut Choices) -> LimitCase {
                 _ => format!("fn main() {{\n    println(\"start\");\n    let keep = Vec[String]::new();\n    let mut i = 0;\n    while i < {rounds} {{\n        keep.push(\"item ${{i}} ${{i * {chunk}}} padding padding padding padding\");\n        i = i + 1;\n    }}\n    println(\"kept ${{keep.size()}}\");\n}}\n"),
             };
             // enough rounds to exceed 512 MiB of live data with any chunk size; partner stays tiny
-            let bytes_per_round = (chunk * elem.2).max(64);
+            let bytes_per_round = if shape == 2 { 64 } else { (chunk * elem.2).max(64) };
             let rounds = (600usize << 20) / bytes_per_round + 10;
             let heap = if heap.is_empty() { "--max-heap-size=64M".to_string() } else { heap };
             let heap = if heap.contains("256M") { "--max-heap-size=128M".to_string() } else { heap };
@@ -128,7 +128,7 @@ pub fn gen_limit(c: &mut Choices) -> LimitCase {
                 gc: if gc == "zero" { "copy".into() } else { gc },
                 runtime_args: heap,
                 accept: oom,
-                partner: Some(prog("3")),
+                partner: Some(prog("2")),
                 partner_stdout: None,
                 arg_class: String::new(),
             }
@@ -225,9 +225,15 @@ impl Prop for Limits {
                     Ending::RuntimePanic(_) => "runtime-panic".to_string(),
                     _ => "other".to_string(),
                 };
+                let fam3: Vec<&str> = case.label.split(':').collect();
+                let key = if case.arg_class.is_empty() {
+                    format!("not-refused@{}:{}:{}", fam, b.name(), what)
+                } else {
+                    format!("not-refused@single-object:{}:{}:{}:{}", case.arg_class, b.name(), fam3.get(2).unwrap_or(&""), what)
+                };
                 return Outcome::fail(
                     h,
-                    format!("not-refused:{}:{}@{}", b.name(), what, tag),
+                    key,
                     format!("{} generator, --gc={} DORA_FLAGS={:?}: expected one of {:?}, the run ended with {:?}\nstdout: {:?}\nstderr: {}", b.name(), case.gc, case.runtime_args, case.accept, ending, truncate_str(&rr.stdout_str(), 200), truncate_str(&rr.stderr_str(), 400)),
                 );
             }
@@ -290,7 +296,7 @@ pub fn main(mode: Mode) -> i32 {
                 println!("INCONCLUSIVE property=C13 the optimizing compiler could not be bootstrapped from this tree");
                 return 2;
             }
-            ctx.rule = "cases: (stack) unbounded recursion — plain, mutual, generic, through a trait object, through a lambda stored in a class, with deep expression temporaries — with generated frame shapes (0-400 locals, by-value tuple parameters of 0-512 words), on the main thread and on a spawned thread, each with a bounded partner program (same shape, depth 200) that must run to completion; (heap) retention loops (Vec of arrays, linked list with payload arrays, strings) that keep > 600 MiB alive under a 16-128 MiB heap, with a 3-round partner; single allocations (Array::fill/zero, Vec::new_with_capacity) over element sizes 1/3/4/8/24 bytes with lengths from {negative, 10^8, 2^29, 2^31, 2^32, 1431655766, 2^60-1, 2^61, 2^61+1, Int64 max, …}; x collectors {swiper, copy, sweep, zero} x heap sizes x both code generators. oracle: exit status 107 'stack overflow' resp. 106 'out of memory' (for impossible sizes 106 or 109 'overflow') with a stack trace and the output printed before — never a signal, a hang, a runtime panic or a successful run with a bogus object; partner programs exit 0. non-trivial = every case (each reaches the limit by construction); distinct by (source, collector, flags) hash".into();
+            ctx.rule = "cases: (stack) unbounded recursion — plain, mutual, generic, through a trait object, through a lambda stored in a class, with deep expression temporaries — with generated frame shapes (0-400 locals, by-value tuple parameters of 0-512 words), on the main thread and on a spawned thread, each with a bounded partner program (same shape, depth 20) that must run to completion; (heap) retention loops (Vec of arrays, linked list with payload arrays, strings) that keep > 600 MiB alive under a 16-128 MiB heap, with a 3-round partner; single allocations (Array::fill/zero, Vec::new_with_capacity) over element sizes 1/3/4/8/24 bytes with lengths from {negative, 10^8, 2^29, 2^31, 2^32, 1431655766, 2^60-1, 2^61, 2^61+1, Int64 max, …}; x collectors {swiper, copy, sweep, zero} x heap sizes x both code generators. oracle: exit status 107 'stack overflow' resp. 106 'out of memory' (for impossible sizes 106 or 109 'overflow') with a stack trace and the output printed before — never a signal, a hang, a runtime panic or a successful run with a bogus object; partner programs exit 0. non-trivial = every case (each reaches the limit by construction); distinct by (source, collector, flags) hash".into();
             ctx.run_regressions(&p);
             ctx.run_known_reproducers(&p);
             let n = ctx.n(160, 3000);
